@@ -49,6 +49,13 @@ type Config struct {
 	// stream together with the last octets (n > 0, io.EOF) instead of in a
 	// Read of its own (see memnet End.eofWithData)
 	EOFWithData bool `json:"eof_with_data,omitempty"`
+	// FragmentReplies > 0: whatever the server writes reaches the client in
+	// segments of at most this many octets (a reply may arrive octet by octet)
+	FragmentReplies int `json:"fragment_replies,omitempty"`
+	// Synchronous: the transport buffers nothing, a Write returns when the
+	// peer has read it (net.Pipe). Only for conversations driven by a client
+	// of their own (DialConn): the lock-step driver's Send must not block.
+	Synchronous bool `json:"synchronous,omitempty"`
 }
 
 // LogBuf captures Server.ErrorLog.
@@ -419,6 +426,7 @@ type Wire struct {
 func (r *Rig) Dial() (*Wire, error) {
 	c, s := r.L.Dial()
 	s.SetEOFWithData(r.Cfg.EOFWithData)
+	s.SetFragment(r.Cfg.FragmentReplies)
 	w := &Wire{R: r, C: c, S: s}
 	r.B.SetWireMark(func() int64 { return s.out.written })
 	if r.Cfg.ImplicitTLS() {
@@ -824,6 +832,11 @@ func (w *Wire) Finish() ([]byte, bool) {
 func (r *Rig) DialConn() (net.Conn, *Wire) {
 	c, s := r.L.Dial()
 	s.SetEOFWithData(r.Cfg.EOFWithData)
+	s.SetFragment(r.Cfg.FragmentReplies)
+	if r.Cfg.Synchronous {
+		c.SetSynchronous(true)
+		s.SetSynchronous(true)
+	}
 	w := &Wire{R: r, C: c, S: s}
 	r.B.SetWireMark(func() int64 { return s.out.written })
 	if r.Cfg.ImplicitTLS() {
